@@ -623,7 +623,7 @@ def search_cases(ctx):
 ABCFLAG = {DNA: "--dna", "ACGU": "--rna", AMINO: "--amino"}
 
 
-def ref_records(rng, abc=None, nseq=None, maxlen=150, degenerate=True):
+def ref_records(rng, abc=None, nseq=None, maxlen=150, degenerate=True, long_ok=False):
     """FASTA records inside the reference's domain: plain names, optional description, residues of one alphabet
     (some lower case, a few degenerate symbols)"""
     abc = abc or rng.choice([DNA, DNA, "ACGU", AMINO])
@@ -633,6 +633,8 @@ def ref_records(rng, abc=None, nseq=None, maxlen=150, degenerate=True):
     for i in range(nseq):
         n = rng.choice([1, 2, 3, 10, 59, 60, 61, 119, 120, 121, rng.randrange(1, maxlen + 1), rng.randrange(1, maxlen + 1)])
         n = min(n, maxlen)
+        if long_ok and rng.random() < 0.06:      # around the 4096-residue read window / block sizes of the sequence reader
+            n = rng.choice([4095, 4096, 4097, 8191, 8192, 8193, 9000, 12289])
         style = rng.random()
         seq = []
         for _ in range(n):
@@ -648,9 +650,10 @@ def ref_records(rng, abc=None, nseq=None, maxlen=150, degenerate=True):
     return recs, abc
 
 
-def ref_fasta_text(rng, recs):
-    """the same records laid out in different but equivalent ways (line width, blank lines, trailing blanks)"""
+def ref_fasta_text(rng, recs, crlf_ok=False):
+    """the same records laid out in different but equivalent ways (line width, blank lines, trailing blanks, CRLF)"""
     width = rng.choice([60, 60, 1, 7, 50, 80, 1000])
+    if max(len(r[2]) for r in recs) > 2000 and width < 7: width = 60
     out = []
     for name, desc, seq in recs:
         out.append(">" + name + (" " + desc if desc else ""))
@@ -658,11 +661,12 @@ def ref_fasta_text(rng, recs):
             out.append(seq[i:i + width] + (" " if rng.random() < 0.05 else ""))
         if rng.random() < 0.15:
             out.append("")
-    return "\n".join(out) + "\n"
+    nl = "\r\n" if (crlf_ok and rng.random() < 0.08) else "\n"
+    return nl.join(out) + nl
 
 
 def ref_seqstat(rng, i):
-    recs, abc = ref_records(rng)
+    recs, abc = ref_records(rng, long_ok=True)
     args = []
     if rng.random() < 0.5: args.append("-a")
     if rng.random() < 0.5 and abc != AMINO: args.append("-c")
@@ -670,7 +674,7 @@ def ref_seqstat(rng, i):
     if rng.random() < 0.3: args += ["--informat", "fasta"]
     args.append(ABCFLAG[abc])
     rng.shuffle(args) if "--informat" not in args else None
-    return {"name": "ref-seqstat-%d" % i, "ref": True, "ops": [op_file("in.fa", ref_fasta_text(rng, recs)), op_run("esl-seqstat", args + ["in.fa"])],
+    return {"name": "ref-seqstat-%d" % i, "ref": True, "ops": [op_file("in.fa", ref_fasta_text(rng, recs, crlf_ok=True)), op_run("esl-seqstat", args + ["in.fa"])],
             "sticky": 1, "recs": recs, "abc": abc}
 
 
@@ -736,7 +740,7 @@ def ref_selectn(rng, i):
 
 
 def ref_mask(rng, i):
-    recs, abc = ref_records(rng, maxlen=130)
+    recs, abc = ref_records(rng, maxlen=130, long_ok=True)
     recs = [(n, d, "".join(c if rng.random() > 0.03 else rng.choice("*") for c in s)) for n, d, s in recs]
     k = rng.randrange(1, len(recs) + 1)
     mlines = []
@@ -751,11 +755,10 @@ def ref_mask(rng, i):
     if w < 0.3: args.append("-l")
     elif w < 0.6: args += ["-m", rng.choice(["N", "x", "-", "*", "Q"])]
     if rng.random() < 0.5: args += ["-x", str(rng.choice([0, 1, 2, 5, 1000, -1, -3]))]
-    if rng.random() < 0.15:       # -R: random access through the SSI index, mask lines in any order
-        # (known finding C13:esl-mask:-R:ssi-index-never-opened until /var/tmp/fixes-proposed/C13-mask-R-open-ssi.patch lands)
+    if rng.random() < 0.25:       # -R: random access through the SSI index, mask lines in any order
         rng.shuffle(mlines)
         mlines = mlines[:rng.randrange(1, len(mlines) + 1)]
-        return {"name": "ref-mask-%d-R" % i, "ref": True, "sticky": 3, "known_key": "C13:esl-mask:-R:ssi-index-never-opened",
+        return {"name": "ref-mask-%d-R" % i, "ref": True, "sticky": 3,
                 "ops": [op_file("in.fa", fasta_text(recs, rng.choice([60, 50, 11]))), op_file("mask", "\n".join(mlines) + "\n"),
                         op_run("esl-sfetch", ["--index", "in.fa"]), op_run("esl-mask", ["-R"] + args + ["in.fa", "mask"])]}
     return {"name": "ref-mask-%d" % i, "ref": True, "sticky": 2,
@@ -766,10 +769,10 @@ def ref_mask(rng, i):
 def ref_reformat(rng, i):
     mode = rng.choice(["ff", "af", "aa"])
     if mode == "ff":
-        recs, abc = ref_records(rng, maxlen=140)
+        recs, abc = ref_records(rng, maxlen=140, long_ok=True)
         if rng.random() < 0.3:
             recs = [(n, d, "".join(c if rng.random() > 0.05 else rng.choice("XxNn*") for c in s)) for n, d, s in recs]
-        text, infmt, outfmt = ref_fasta_text(rng, recs), "fasta", "fasta"
+        text, infmt, outfmt = ref_fasta_text(rng, recs, crlf_ok=True), "fasta", "fasta"
     else:
         rows, abc = ref_msa_rows(rng)
         if rng.random() < 0.3:
@@ -802,7 +805,7 @@ def ref_shuffle(rng, i):
         args = ["-G", rng.choice(["--dna", "--rna"]), "-L", str(rng.choice([1, 2, 59, 60, 61, 150])), "--seed", ref_seed(rng)]
         if rng.random() < 0.5: args += ["-N", str(rng.choice([1, 2, 3, 10]))]
         return {"name": "ref-shuffle-%d-G" % i, "ref": True, "sticky": 0, "ops": [op_run("esl-shuffle", args)]}
-    recs, abc = ref_records(rng, maxlen=160)
+    recs, abc = ref_records(rng, maxlen=160, long_ok=True)
     args = ["--seed", ref_seed(rng)]
     w = rng.random()
     if w < 0.25: args.append("-m")
@@ -814,7 +817,7 @@ def ref_shuffle(rng, i):
         args += ["-L", str(rng.choice([1, 2, 5, 10, 60, 100]))]
     args += ["--informat", "fasta", "in.fa"]
     return {"name": "ref-shuffle-%d" % i, "ref": True, "sticky": 1,
-            "ops": [op_file("in.fa", ref_fasta_text(rng, recs)), op_run("esl-shuffle", args)]}
+            "ops": [op_file("in.fa", ref_fasta_text(rng, recs, crlf_ok=True)), op_run("esl-shuffle", args)]}
 
 
 def ref_downsample(rng, i):
